@@ -168,6 +168,10 @@ pub fn judge_run(
     let _ = requested;
     let fail = match &r {
         Err(p) => Some((format!("panic {}", sut::panic_site(p)), format!("panic: {}", p))),
+        Ok(o) if o.printed.is_err() => {
+            let p = o.printed.as_ref().err().unwrap();
+            Some((format!("panic-while-printing-diagnostics {}", sut::panic_site(p)), format!("printing the diagnostics panicked: {}", p)))
+        }
         Ok(o) => {
             let any_err = sut::has_error(&o.msgs);
             if o.ok {
